@@ -327,6 +327,9 @@ class Program:
                 return mi.functions[parts[0]]
         elif len(parts) == 2 and parts[0] in mi.classes:
             m = mi.classes[parts[0]].methods.get(parts[1])
+            if m is None:
+                # inherited from a repository base class / mixin
+                m = self.lookup_method(mi.classes[parts[0]].fq, parts[1])
             if m is not None:
                 return m
         raise AnalysisError(f"anchor vanished: function {module}:{qualname}")
